@@ -38,7 +38,7 @@ impl Sut for VC {
     }
     fn observe(&self) -> Obs {
         let mut inc = None;
-        let by_get: Clk = (0..8u8).filter_map(|a| if self.get(&a) > 0 { Some((a, self.get(&a))) } else { None }).collect();
+        let by_get: Clk = (0..=255u8).filter_map(|a| if self.get(&a) > 0 { Some((a, self.get(&a))) } else { None }).collect();
         let by_iter: Clk = self.iter().map(|d| (*d.actor, d.counter)).collect();
         if by_get != by_iter || self.is_empty() != by_iter.is_empty() {
             inc = Some(format!("get/iter/is_empty disagree: {by_get:?} vs {by_iter:?}"));
@@ -81,7 +81,7 @@ fn random_steps(rng: &mut Rng) -> u64 {
     }
 }
 fn count_spec(inp: &SpecIn, neg: bool) -> u128 {
-    let mut best = [0u128; 8];
+    let mut best = [0u128; 256];
     for (_, f) in inp.facts {
         if let Fact::Count { actor, neg: n, total } = f {
             if *n == neg {
